@@ -273,7 +273,27 @@ void h_run(Case &c) {
   run_snapshot_case(c, s, sp, removed);
 }
 
+// Thorough tier, exhaustive slice: "enum:<mode>:<k>:<n>" runs, on the single snapshot this process owns, every single removal (mode 1) or every
+// pair of removals (mode 2, only when at most 120 paths qualify) among the removable paths under sys/devices/system whose enumeration index is
+// congruent to k modulo n, with the default configuration and with INCLUDE_DISALLOWED + every type kept.  The child restores the snapshot itself
+// between two removal sets; the parent's restore is the safety net for a crash in the middle.
+static bool run_enumeration(const std::string &name, Case &c) {
+  int mode = 0, k = 0, n = 1; if (sscanf(name.c_str(), "enum:%d:%d:%d", &mode, &k, &n) != 3 || n < 1 || (mode != 1 && mode != 2)) return false;
+  const Snapshot &s = g_snaps[0]; std::vector<unsigned> L; std::string pre = s.kind == "x86+linux" ? "fsroot/sys/devices/system/" : "sys/devices/system/";
+  for (unsigned i = 0; i < s.paths.size(); i++) if (s.paths[i].compare(0, pre.size(), pre) == 0) L.push_back(i);
+  unsigned long done = 0, idx = 0; c.descf("exhaustive slice of %s: %s removals under sys/devices/system (%zu paths), share %d of %d", s.id.c_str(), mode == 1 ? "single" : "pairwise", L.size(), k, n);
+  auto one = [&](std::vector<unsigned> rem) { for (int cfgi = 0; cfgi < 2; cfgi++) { TopoSpec sp; sp.components = s.kind == "x86+linux" ? "linux,x86,stop" : "linux,stop"; if (cfgi) { sp.flags = HWLOC_TOPOLOGY_FLAG_INCLUDE_DISALLOWED; sp.all_filter_set = true; sp.all_filter = HWLOC_TYPE_FILTER_KEEP_ALL; }
+      run_snapshot_case(c, s, sp, rem); restore_from_journal(); done++; } };
+  if (mode == 1) { for (unsigned a = 0; a < L.size(); a++, idx++) if ((long)(idx % (unsigned long)n) == k) one({L[a]}); }
+  else if (L.size() <= 120) { for (unsigned a = 0; a < L.size(); a++) for (unsigned b = a + 1; b < L.size(); b++, idx++) if ((long)(idx % (unsigned long)n) == k) {
+        // a path below a removed directory is not a separate removal
+        const std::string &pa = s.paths[L[a]], &pb = s.paths[L[b]]; if (pb.compare(0, pa.size() + 1, pa + "/") == 0 || pa.compare(0, pb.size() + 1, pb + "/") == 0) continue; one({L[a], L[b]}); } }
+  if (const char *o = getenv("VERIF_C18_ENUM_OUT")) { FILE *f = fopen(o, "w"); if (f) { fprintf(f, "{\"snapshot\": \"%s\", \"mode\": %d, \"share\": %d, \"of\": %d, \"paths\": %zu, \"removal_sets_run\": %lu}\n", s.id.c_str(), mode, k, n, L.size(), done); fclose(f); } }
+  return true;
+}
+
 bool h_named(const std::string &name, Case &c) {
+  if (name.compare(0, 5, "enum:") == 0) return run_enumeration(name, c);
   auto snap = [&](const char *id) -> const Snapshot & { for (auto &s : g_snaps) if (s.id == id) return s; c.fail("named_setup", "snapshot %s is not extracted (VERIF_C18_OWNED)", id); };
   auto idx = [&](const Snapshot &s, const char *p) -> unsigned { auto it = std::lower_bound(s.paths.begin(), s.paths.end(), std::string(p)); if (it == s.paths.end() || *it != p) c.fail("named_setup", "%s has no removable path %s", s.id.c_str(), p); return (unsigned)(it - s.paths.begin()); };
   if (name == "F-C18-a") {   // open: stale complete_cpuset of the NUMA node after KEEP_STRUCTURE merged its Package parent (offline CPUs)
